@@ -70,6 +70,12 @@ pub fn release(o: usize, arc: Arc<Desync<Val>>) {
         if let Err(e) = r {
             let m = panic_msg(&e);
             w().notes.push(format!("drop of object {} panicked: {}", o, m));
+            if rt::thread::panicking() {
+                // the owner was released by a thread that was already unwinding: outside the harness (which catches the second
+                // panic in order to go on) this is a panic inside a destructor during unwinding, and the process aborts
+                let prop = if w().objs[o].panic_injected { "C15" } else { "C05" };
+                violation(prop, "drop_panicked_while_unwinding", &[], format!("dropping object {} on a thread that was already unwinding raised a second panic ({}): the process would abort", o, m));
+            }
         }
     } else {
         drop(arc);
